@@ -212,7 +212,32 @@ struct Sched {
 static Sched S;
 static thread_local int my_tid = -1;
 
-static bool s_enabled(int t)
+// scheduler-internal synchronisation.  Normal builds: a pthread mutex + condition variable.  ThreadSanitizer build: raw futex primitives from
+// rawsync.c (uninstrumented), so that the baton hand-over is NOT a happens-before edge for the detector; the library's own mutexes (the
+// callbacks below) are announced with __tsan_acquire / __tsan_release instead.
+#if defined(__SANITIZE_THREAD__)
+extern "C" { void raw_lock(volatile int*); void raw_unlock(volatile int*); int raw_load(volatile int*); void raw_bump_and_wake(volatile int*); void raw_wait_while(volatile int*, int);
+             void __tsan_acquire(void*); void __tsan_release(void*); }
+static volatile int S_rawmu = 0, S_rawseq = 0;
+static char S_tsan_keys[8192][8];
+#define SLOCK() raw_lock(&S_rawmu)
+#define SUNLOCK() raw_unlock(&S_rawmu)
+#define SBROADCAST() raw_bump_and_wake(&S_rawseq)
+#define SWAIT() do { int seq_ = raw_load(&S_rawseq); raw_unlock(&S_rawmu); raw_wait_while(&S_rawseq, seq_); raw_lock(&S_rawmu); } while (0)
+#define TSAN_ACQ(i) __tsan_acquire((void*)S_tsan_keys[(i) % 8192])
+#define TSAN_REL(i) __tsan_release((void*)S_tsan_keys[(i) % 8192])
+#define NOTSAN __attribute__((no_sanitize_thread))
+#else
+#define SLOCK() pthread_mutex_lock(&S.mu)
+#define SUNLOCK() pthread_mutex_unlock(&S.mu)
+#define SBROADCAST() pthread_cond_broadcast(&S.cv)
+#define SWAIT() pthread_cond_wait(&S.cv, &S.mu)
+#define TSAN_ACQ(i) do {} while (0)
+#define TSAN_REL(i) do {} while (0)
+#define NOTSAN
+#endif
+
+NOTSAN static bool s_enabled(int t)
 {
 	if (S.finished[t]) return false;
 	int w = S.waiting_on[t];
@@ -220,7 +245,7 @@ static bool s_enabled(int t)
 	return S.mutexes[w].owner < 0;
 }
 // called with S.mu held by the baton holder `me` (or -1 for the initial choice); picks the next runner and waits until `me` holds the baton again
-static void s_choose(int me, char kind)
+NOTSAN static void s_choose(int me, char kind)
 {
 	std::vector<int> en;
 	if (me >= 0 && s_enabled(me)) en.push_back(me);
@@ -230,7 +255,7 @@ static void s_choose(int me, char kind)
 		for (int t = 0; t < S.nthreads; t++) if (!S.finished[t]) all_done = false;
 		if (!all_done && S.error.empty()) S.error = "deadlock: no enabled thread";
 		S.current = -2;                       // release everybody: the run is over (or broken)
-		pthread_cond_broadcast(&S.cv);
+		SBROADCAST();
 		return;
 	}
 	size_t i = S.points.size();
@@ -240,62 +265,65 @@ static void s_choose(int me, char kind)
 	if (S.points.size() < S.max_points) S.points.push_back(pt);
 	else if (S.error.empty()) S.error = "too many scheduling points";
 	S.current = en[choice];
-	pthread_cond_broadcast(&S.cv);
+	SBROADCAST();
 }
-static void s_wait_baton(int me)
+NOTSAN static void s_wait_baton(int me)
 {
-	while (S.current != me && S.current != -2) pthread_cond_wait(&S.cv, &S.mu);
+	while (S.current != me && S.current != -2) SWAIT();
 }
-static CK_RV scb_create(CK_VOID_PTR_PTR pp)
+NOTSAN static CK_RV scb_create(CK_VOID_PTR_PTR pp)
 {
-	pthread_mutex_lock(&S.mu);
+	SLOCK();
 	S.mutexes.push_back({-1, true});
 	*pp = (CK_VOID_PTR)(uintptr_t)(S.mutexes.size());       // id + 1, never NULL
 	S.created++;
-	pthread_mutex_unlock(&S.mu);
+	SUNLOCK();
 	return CKR_OK;
 }
-static int s_index(CK_VOID_PTR p, const char* what)
+NOTSAN static int s_index(CK_VOID_PTR p, const char* what)
 {
 	uintptr_t v = (uintptr_t)p;
 	if (v == 0 || v > S.mutexes.size() || !S.mutexes[v - 1].alive) { if (S.error.empty()) S.error = std::string("mutex protocol: ") + what + " on a mutex the application did not create (or destroyed)"; return -1; }
 	return (int)(v - 1);
 }
-static CK_RV scb_destroy(CK_VOID_PTR p)
+NOTSAN static CK_RV scb_destroy(CK_VOID_PTR p)
 {
-	pthread_mutex_lock(&S.mu);
+	SLOCK();
 	int i = s_index(p, "DestroyMutex");
 	if (i >= 0) { if (S.mutexes[i].owner >= 0 && S.error.empty()) S.error = "mutex protocol: DestroyMutex on a locked mutex"; S.mutexes[i].alive = false; S.destroyed++; }
-	pthread_mutex_unlock(&S.mu);
+	SUNLOCK();
 	return CKR_OK;
 }
-static CK_RV scb_lock(CK_VOID_PTR p)
+NOTSAN static CK_RV scb_lock(CK_VOID_PTR p)
 {
-	pthread_mutex_lock(&S.mu);
+	SLOCK();
 	S.locks++;
 	int i = s_index(p, "LockMutex");
-	if (i < 0) { pthread_mutex_unlock(&S.mu); return CKR_OK; }
+	if (i < 0) { SUNLOCK(); return CKR_OK; }
 	int me = S.active ? my_tid : -1;
 	if (me < 0) {          // single-threaded phase (set-up / final observations): no scheduling
 		if (S.mutexes[i].owner != -1 && S.error.empty()) S.error = "mutex protocol: LockMutex on an owned mutex outside the threaded phase";
 		S.mutexes[i].owner = 100;
-		pthread_mutex_unlock(&S.mu);
+		SUNLOCK();
+		TSAN_ACQ(i);
 		return CKR_OK;
 	}
 	if (S.mutexes[i].owner == me && S.error.empty()) S.error = "mutex protocol: re-lock by the owner";
 	S.waiting_on[me] = i;
 	s_choose(me, 'L');
 	s_wait_baton(me);
-	if (S.current == -2) { S.waiting_on[me] = -1; pthread_mutex_unlock(&S.mu); return CKR_OK; }      // run aborted (deadlock): let the thread unwind
+	if (S.current == -2) { S.waiting_on[me] = -1; SUNLOCK(); return CKR_OK; }      // run aborted (deadlock): let the thread unwind
 	// we hold the baton and the mutex is free (that is what enabled means)
 	S.mutexes[i].owner = me;
 	S.waiting_on[me] = -1;
-	pthread_mutex_unlock(&S.mu);
+	SUNLOCK();
+	TSAN_ACQ(i);
 	return CKR_OK;
 }
-static CK_RV scb_unlock(CK_VOID_PTR p)
+NOTSAN static CK_RV scb_unlock(CK_VOID_PTR p)
 {
-	pthread_mutex_lock(&S.mu);
+	{ uintptr_t v_ = (uintptr_t)p; if (v_) TSAN_REL((int)(v_ - 1)); }
+	SLOCK();
 	S.unlocks++;
 	int i = s_index(p, "UnlockMutex");
 	if (i >= 0) {
@@ -303,7 +331,7 @@ static CK_RV scb_unlock(CK_VOID_PTR p)
 		if (S.mutexes[i].owner != me && S.current != -2 && S.error.empty()) S.error = "mutex protocol: UnlockMutex by a thread that does not own the mutex";
 		S.mutexes[i].owner = -1;
 	}
-	pthread_mutex_unlock(&S.mu);
+	SUNLOCK();
 	return CKR_OK;
 }
 
@@ -863,18 +891,43 @@ static void* thread_main(void* arg)
 {
 	int t = (int)(intptr_t)arg;
 	my_tid = t;
-	pthread_mutex_lock(&S.mu);
+	SLOCK();
 	s_wait_baton(t);
-	pthread_mutex_unlock(&S.mu);
+	SUNLOCK();
 	TBody& b = T_bodies[t];
 	for (size_t i = 0; i < b.lines.size(); i++) {
 		if (S.current == -2 && !S.error.empty()) break;      // run aborted
 		run_line(b, i);
 	}
-	pthread_mutex_lock(&S.mu);
+	SLOCK();
 	S.finished[t] = true;
 	s_choose(t, 'E');
-	pthread_mutex_unlock(&S.mu);
+	SUNLOCK();
+	return NULL;
+}
+// free-running threads (race-detector side pass: the library uses OS mutexes, nothing is scheduled; all threads start together)
+static pthread_barrier_t T_barrier;
+static void* thread_main_free(void* arg)
+{
+	TBody& b = T_bodies[(int)(intptr_t)arg];
+	pthread_barrier_wait(&T_barrier);
+	for (size_t i = 0; i < b.lines.size(); i++) run_line(b, i);
+	return NULL;
+}
+// serial order without any synchronisation a race detector can see: thread k of the given order starts when thread k-1 has finished, the hand-over is a
+// plain volatile int polled in functions that are not instrumented.  Executions are deterministic (one thread at a time), and the detector's
+// happens-before relation contains exactly the library's own locks, so every pair of conflicting accesses no common lock orders is reported.
+static volatile int T_gate = 0;
+static std::vector<int> T_order;
+__attribute__((no_sanitize_thread)) static void gate_wait(int pos) { while (T_gate != pos) syscall(SYS_sched_yield); }
+__attribute__((no_sanitize_thread)) static void gate_next() { T_gate = T_gate + 1; }
+static void* thread_main_gated(void* arg)
+{
+	int pos = (int)(intptr_t)arg;
+	gate_wait(pos);
+	TBody& b = T_bodies[T_order[pos]];
+	for (size_t i = 0; i < b.lines.size(); i++) run_line(b, i);
+	gate_next();
 	return NULL;
 }
 static std::string run_threads(const std::string& spec)
@@ -883,7 +936,7 @@ static std::string run_threads(const std::string& spec)
 	T_bodies.clear(); T_final.clear(); T_final_answers.clear();
 	std::vector<int> prefix;
 	std::vector<std::pair<int, int>> seq;
-	bool sequential = false;
+	bool sequential = false, freerun = false, gated = false;
 	size_t pos = 0;
 	while (pos < spec.size()) {
 		size_t nl = spec.find('\n', pos);
@@ -892,13 +945,31 @@ static std::string run_threads(const std::string& spec)
 		pos = nl + 1;
 		if (l.empty()) continue;
 		if (l.compare(0, 9, "schedule ") == 0 || l == "schedule") { const char* c = l.c_str() + 8; char* e; while (*c) { long v = strtol(c, &e, 10); if (e == c) break; prefix.push_back((int)v); c = e; } }
+		else if (l == "free") freerun = true;
+		else if (l.compare(0, 6, "gated ") == 0) { gated = true; T_order.clear(); const char* c = l.c_str() + 6; char* e; while (*c) { long v = strtol(c, &e, 10); if (e == c) break; T_order.push_back((int)v); c = e; } }
 		else if (l.compare(0, 4, "seq ") == 0) { sequential = true; const char* c = l.c_str() + 4; char* e; while (*c) { long a = strtol(c, &e, 10); if (e == c || *e != ':') break; c = e + 1; long b2 = strtol(c, &e, 10); seq.push_back({(int)a, (int)b2}); c = e; } }
 		else if (l[0] == 'T') { char* e; long t = strtol(l.c_str() + 1, &e, 10); if ((size_t)t >= T_bodies.size()) T_bodies.resize(t + 1); T_bodies[t].lines.push_back(std::string(*e == ' ' ? e + 1 : e)); }
 		else if (l[0] == 'F' && l.size() > 2) T_final.push_back(l.substr(2));
 	}
 	int n = (int)T_bodies.size();
 	S.error.clear(); S.points.clear(); S.prefix = prefix;
-	if (sequential) {
+	if (gated) {
+		S.active = false;
+		int m = (int)T_order.size();
+		for (int k = 0; k < m; k++) if (T_order[k] < 0 || T_order[k] >= n) { m = 0; S.error = "bad thread order"; }
+		std::vector<pthread_t> th(m);
+		T_gate = -1;
+		for (int k = 0; k < m; k++) pthread_create(&th[k], NULL, thread_main_gated, (void*)(intptr_t)k);
+		gate_next();
+		for (int k = 0; k < m; k++) pthread_join(th[k], NULL);
+	} else if (freerun) {
+		S.active = false;
+		std::vector<pthread_t> th(n);
+		pthread_barrier_init(&T_barrier, NULL, n);
+		for (int t = 0; t < n; t++) pthread_create(&th[t], NULL, thread_main_free, (void*)(intptr_t)t);
+		for (int t = 0; t < n; t++) pthread_join(th[t], NULL);
+		pthread_barrier_destroy(&T_barrier);
+	} else if (sequential) {
 		S.active = false;
 		for (auto& pr : seq) if (pr.first < n && (size_t)pr.second < T_bodies[pr.first].lines.size()) run_line(T_bodies[pr.first], pr.second);
 	} else {
@@ -907,9 +978,9 @@ static std::string run_threads(const std::string& spec)
 		S.active = true;
 		std::vector<pthread_t> th(n);
 		for (int t = 0; t < n; t++) pthread_create(&th[t], NULL, thread_main, (void*)(intptr_t)t);
-		pthread_mutex_lock(&S.mu);
+		SLOCK();
 		s_choose(-1, 'S');
-		pthread_mutex_unlock(&S.mu);
+		SUNLOCK();
 		for (int t = 0; t < n; t++) pthread_join(th[t], NULL);
 		S.active = false;
 		// mutexes still owned after the threaded phase are a protocol problem of the library, not of the harness
